@@ -241,6 +241,30 @@ pub fn byte_case(rng: &mut Rng, max_hay: usize) -> (u8, [u8; 3], Vec<u8>) {
                 hay[i] = n[0];
             }
         }
+        5 => {
+            // near misses for bit tricks: bytes one bit (or one unit) away
+            // from a needle, right next to real matches
+            if !hay.is_empty() {
+                for _ in 0..rng.range(1, 8) {
+                    let i = rng.usize_below(hay.len());
+                    let nb = n[rng.usize_below(arity as usize)];
+                    let near = match rng.below(5) {
+                        0 => nb ^ 1,
+                        1 => nb ^ 0x80,
+                        2 => nb.wrapping_add(1),
+                        3 => nb.wrapping_sub(1),
+                        _ => nb ^ (1 << rng.below(8)),
+                    };
+                    hay[i] = nb;
+                    if i > 0 && rng.chance(2, 3) {
+                        hay[i - 1] = near;
+                    }
+                    if i + 1 < hay.len() && rng.chance(1, 3) {
+                        hay[i + 1] = near;
+                    }
+                }
+            }
+        }
         4 => {
             // a few
             for _ in 0..rng.range(1, 6) {
@@ -296,9 +320,71 @@ pub fn cost_pair(rng: &mut Rng, n: usize, m: usize) -> (Vec<u8>, Vec<u8>, &'stat
     (needle, hay, name)
 }
 
+/// A needle made of a few letter runs whose lengths are related (k, k-1,
+/// k+1, 1, 2): the shapes that stress suffix/period preprocessing.
+pub fn run_grammar(rng: &mut Rng, m: usize) -> Vec<u8> {
+    let runs = rng.range(2, 6);
+    let k = (m / runs.max(1)).max(1);
+    let mut out = Vec::with_capacity(m + 8);
+    let mut letter = if rng.chance(1, 2) { b'a' } else { b'b' };
+    for _ in 0..runs {
+        let len = match rng.below(6) {
+            0 => k,
+            1 => k.saturating_sub(1).max(1),
+            2 => k + 1,
+            3 => 1,
+            4 => 2,
+            _ => rng.range(1, k.max(1)),
+        };
+        out.extend(std::iter::repeat(letter).take(len));
+        letter = match rng.below(3) {
+            0 => b'a',
+            1 => b'b',
+            _ => {
+                if letter == b'a' {
+                    b'b'
+                } else {
+                    b'a'
+                }
+            }
+        };
+    }
+    out
+}
+
 fn cost_pair_inner(rng: &mut Rng, n: usize, m: usize) -> (Vec<u8>, Vec<u8>, &'static str) {
     let m = m.max(1).min(n.max(1));
-    match rng.below(14) {
+    match rng.below(18) {
+        14 | 15 => {
+            // run-length grammar needles (construction cost), ordinary haystack
+            let needle = run_grammar(rng, m);
+            let hay = match rng.below(3) {
+                0 => vec![needle[0]; n],
+                1 => word(rng, n, b"ab"),
+                _ => {
+                    let mut h = Vec::with_capacity(n + needle.len());
+                    while h.len() < n {
+                        h.extend_from_slice(&needle[..needle.len().min(n - h.len()).max(1)]);
+                    }
+                    h
+                }
+            };
+            (needle, hay, "run-length grammar needle")
+        }
+        16 | 17 => {
+            // needle longer than half the haystack: few windows, each almost matching
+            let m2 = (n / 2 + rng.range(1, 8)).min(n).max(2);
+            let mut needle = vec![b'a'; m2];
+            match rng.below(3) {
+                0 => needle[m2 - 1] = b'b',
+                1 => {
+                    let at = m2.saturating_sub(40).min(m2 - 1);
+                    needle[at] = b'b'
+                }
+                _ => needle[0] = b'b',
+            }
+            (needle, vec![b'a'; n], "needle longer than half the haystack")
+        }
         12 | 13 => {
             // the portable prefilter's worst case: a needle whose rare byte
             // sits at a large offset, a haystack with a long candidate-free
